@@ -382,7 +382,10 @@ fn lean_left(node: &Node) -> Node {
                 if format!("{kind:?}") == "Minus" {
                     if let UnaryKind { kind: k2, right: inner } = (**right).clone() {
                         if format!("{k2:?}") == "Percentage" {
-                            *n = UnaryKind { kind: k2, right: Box::new(UnaryKind { kind: kind.clone(), right: inner }) };
+                            // the moved minus meets what is below it: a literal, another sign, a product
+                            let mut neg = UnaryKind { kind: kind.clone(), right: inner };
+                            go(&mut neg);
+                            *n = UnaryKind { kind: k2, right: Box::new(neg) };
                         }
                     }
                 }
